@@ -344,7 +344,7 @@ std::string run_case(const std::vector<std::string>& w)
    if (haveEnv) ::setenv(envName.c_str(), envContent.c_str(), 1);
 
    std::ostringstream out, err;
-   std::string outcome, excName = "-";
+   std::string outcome, excName = "-", excMsg;
    std::vector<std::unique_ptr<pa::Handler>> owned;
    std::vector<std::shared_ptr<pa::Handler>> shared;
    pa::Handler* single = nullptr;
@@ -396,7 +396,7 @@ std::string run_case(const std::vector<std::string>& w)
       }
    } catch (const std::exception& e)
    {
-      outcome = "setup"; excName = excClass(e);
+      outcome = "setup"; excName = excClass(e); excMsg = e.what();
    }
    if (outcome.empty())
    {
@@ -421,7 +421,7 @@ std::string run_case(const std::vector<std::string>& w)
          outcome = "ok";
       } catch (const std::exception& e)
       {
-         outcome = "err"; excName = excClass(e);
+         outcome = "err"; excName = excClass(e); excMsg = e.what();
       } catch (...)
       {
          outcome = "err"; excName = "non-std";
@@ -437,7 +437,8 @@ std::string run_case(const std::vector<std::string>& w)
    ::unlink(paFile.c_str());
    if (outcome == "ok") res += vals;
    if (wantOut) res += " out=" + vf::hex(out.str());
-   res += " ## " + excName + (outcome == "ok" ? "" : vals) + " | " + vf::hex(wantOut ? std::string() : out.str());
+   res += " ## " + excName + (outcome == "ok" ? "" : vals) + " | " + vf::hex(wantOut ? std::string() : out.str())
+          + " | " + vf::hex(excMsg);
    return res;
 }
 
